@@ -9,6 +9,7 @@ from __future__ import annotations
 import ast
 
 from .. import AnalysisError
+from ..astutil import bind_call
 from ..model import src_of
 
 
@@ -16,12 +17,42 @@ def _calls_attr(f, attr):
     return [n for n in f.own_nodes() if isinstance(n, ast.Call) and isinstance(n.func, ast.Attribute) and n.func.attr == attr]
 
 
+def _prepare_sites(prog, f, depth=0):
+    """Call nodes in `f` whose value is what prepare_dump returned: direct calls, and calls of helpers of the API module
+    all of whose returns are either the value of a prepare site or (on paths without conversion) a parameter."""
+    sites = list(_calls_attr(f, "prepare_dump"))
+    if depth > 2:
+        return sites
+    for cs in f.calls:
+        for h in cs.callees:
+            if h.module is not f.module or h is f or h.parent is not None or h.is_generator or h.name in ("_check_required", "_select_format_module"):
+                continue
+            inner = _prepare_sites(prog, h, depth + 1)
+            if not inner:
+                continue
+            pmh = prog.parents(h)
+            okh = True
+            for r in [x for x in h.own_nodes() if isinstance(x, ast.Return)]:
+                v = r.value
+                if v is None:
+                    okh = False
+                elif any(v is c or any(y is c for y in ast.walk(v)) for c in inner):
+                    continue
+                elif isinstance(v, ast.Name) and (v.id in h.posparams or any(isinstance(pmh.get(id(c)), ast.Assign) and any(isinstance(t, ast.Name) and t.id == v.id for t in pmh[id(c)].targets) for c in inner)):
+                    continue
+                else:
+                    okh = False
+            if okh and cs.node not in sites:
+                sites.append(cs.node)
+    return sites
+
+
 def check_prepared_object_used(ctx, rid):
     """C09 / C01: the object handed to the writer (and returned) is the one prepare_dump returned."""
     prog = ctx.prog
     d1 = prog.func("iodata.api.dump_one")
     pm = prog.parents(d1)
-    pcalls = _calls_attr(d1, "prepare_dump")
+    pcalls = _prepare_sites(prog, d1)
     wcalls = _calls_attr(d1, "dump_one")
     if len(pcalls) != 1 or len(wcalls) != 1:
         raise AnalysisError(f"api.dump_one: expected one prepare_dump and one format dump_one call (found {len(pcalls)}, {len(wcalls)})")
@@ -45,7 +76,7 @@ def check_prepared_object_used(ctx, rid):
     nprep = 0
     for g in funcs:
         pmg = prog.parents(g)
-        for c in _calls_attr(g, "prepare_dump"):
+        for c in _prepare_sites(prog, g):
             nprep += 1
             cur = c
             used = False
@@ -80,7 +111,18 @@ def check_prepare_arguments(ctx, rid):
             ctx.violate(rid, f"{f.name}: `allow_changes` defaults to `{src_of(d) if d is not None else '<no default>'}`: objects are converted silently unless the caller forbids it", f, f.node, construct=f"{f.name} allow_changes default")
         else:
             ctx.ok(rid, f"{f.name}: allow_changes defaults to False", f.where)
-        for g in [f] + list(f.nested.values()):
+        scope = [f] + list(f.nested.values())
+        for g0 in list(scope):
+            for cs in g0.calls:
+                for h in cs.callees:
+                    if h.module is f.module and h not in scope and _calls_attr(h, "prepare_dump"):
+                        # a helper that prepares: the API must hand it its own allow_changes and filename
+                        b, _e, okb = bind_call(cs.node, h)
+                        for pn in ("allow_changes", "filename"):
+                            if pn in h.posparams and not (isinstance(b.get(pn), ast.Name) and b[pn].id == pn):
+                                ctx.violate(rid, f"{f.name} calls {h.name} with `{pn}={src_of(b.get(pn)) if b.get(pn) is not None else None}`: the caller's `{pn}` must be passed as it is", g0, cs.node)
+                        scope.append(h)
+        for g in scope:
             for c in _calls_attr(g, "prepare_dump"):
                 a = [src_of(x) for x in c.args] + [f"{k.arg}={src_of(k.value)}" for k in c.keywords]
                 ok = len(c.args) == 3 and not c.keywords and isinstance(c.args[0], ast.Name) and a[1] == "allow_changes" and a[2] == "filename"
@@ -99,14 +141,27 @@ def check_required_operation(ctx, rid):
     n = 0
     for q, op in (("iodata.api.dump_one", "dump_one"), ("iodata.api.dump_many", "dump_many")):
         f = prog.func(q)
-        for g in [f] + list(f.nested.values()):
+        scope = [(g, None, None) for g in [f] + list(f.nested.values())]
+        # helpers of the API module that perform the check on behalf of this entry point, with the call that reaches them
+        for g0 in [f] + list(f.nested.values()):
+            for cs0 in g0.calls:
+                for h in cs0.callees:
+                    if h.module is f.module and h.parent is None and h is not cr and any(cr in c2.callees for c2 in h.calls):
+                        scope.append((h, g0, cs0.node))
+        for g, via_f, via_call in scope:
             for cs in g.calls:
                 if cr not in cs.callees:
                     continue
                 n += 1
                 c = cs.node
                 third = c.args[2] if len(c.args) > 2 else next((k.value for k in c.keywords if k.arg == cr.posparams[2]), None)
-                if isinstance(third, ast.Attribute) and third.attr == op and isinstance(third.value, ast.Name):
+                good = isinstance(third, ast.Attribute) and third.attr == op and isinstance(third.value, ast.Name)
+                if not good and via_call is not None and isinstance(third, ast.Call) and isinstance(third.func, ast.Name) and third.func.id == "getattr" and len(third.args) == 2 and isinstance(third.args[1], ast.Name):
+                    # getattr(format_module, attrname) in a helper: the entry point must bind attrname to its own operation
+                    b, _e, _ok = bind_call(via_call, g)
+                    v = b.get(third.args[1].id)
+                    good = isinstance(v, ast.Constant) and v.value == op
+                if good:
                     ctx.ok(rid, f"{f.name}: required attributes are those declared by the module's {op}", f"{g.module.relpath}:{c.lineno}")
                 else:
                     ctx.violate(rid, f"{f.name} checks the required attributes of `{src_of(third) if third is not None else None}`, but the file is written by the module's {op}", g, c)
